@@ -223,6 +223,24 @@ func (s *Server) FailAt(pred func(cmd string, args [][]byte) bool, reply string,
 	s.mu.Unlock()
 }
 
+// WaitIdle waits until every connection has been closed by its client and all
+// requests buffered on them have been processed (bounded by d).
+func (s *Server) WaitIdle(d time.Duration) bool {
+	deadline := time.Now().Add(d)
+	for {
+		s.mu.Lock()
+		n := len(s.conns)
+		s.mu.Unlock()
+		if n == 0 {
+			return true
+		}
+		if time.Now().After(deadline) {
+			return false
+		}
+		time.Sleep(200 * time.Microsecond)
+	}
+}
+
 func (s *Server) Lock()   { s.mu.Lock() }
 func (s *Server) Unlock() { s.mu.Unlock() }
 
